@@ -108,6 +108,13 @@ def geometry(c):
     if c.get("before"):
         _ = getattr(geom, {"sphere": "bounding_sphere", "hull": "convex_hull", "obb": "bounding_box_oriented",
                            "cyl": "bounding_cylinder"}[c["before"]])
+    if c.get("edit"):
+        # after that query some points are moved in place (out of the old hull) and the geometry is translated, with
+        # nothing read in between: the volumes asked for next must bound the points as they are now
+        ext_ = float(np.ptp(np.array(geom.vertices), axis=0).max())
+        for i_ in (0, len(geom.vertices) // 2):
+            geom.vertices[i_] = np.array(geom.vertices[i_]) + np.array([1.5, -2.0, 2.5]) * ext_
+        geom.apply_translation(np.array([0.5, -1.0, 2.0]) * ext_)
     if c.get("mirror"):
         M = np.diag([1.0, 1.0, -1.0, 1.0])
         M[:3, 3] = [0.5, -1.0, 2.0]
@@ -125,6 +132,10 @@ def cases(ctx):
             for asx in ("cloud", "hullmesh"):
                 yield {"cloud": kind, "seed": 12, "query": q, "move": True, "as": asx, "before": "sphere", "mirror": False}
                 yield {"cloud": kind, "seed": 12, "query": q, "move": True, "as": asx, "before": "hull", "mirror": True}
+    for kind in ("random", "long", "torus"):
+        for q in ("hull", "obb", "cylinder", "sphere"):
+            for bf in ("hull", "sphere", "obb"):
+                yield {"cloud": kind, "seed": 41, "query": q, "move": False, "as": "cloud", "before": bf, "edit": True, "mirror": False}
     for kind in ("dented", "loose"):
         for q in ("hull", "obb", "cylinder", "sphere"):
             for mv in (False, True):
@@ -152,7 +163,7 @@ def cases(ctx):
             q = "hull"
         c = {"cloud": kind, "seed": rng.randrange(10 ** 6), "query": q, "move": rng.random() < 0.5,
              "as": rng.choice(["cloud", "hullmesh"]), "before": rng.choice([None, None, "sphere", "hull", "obb", "cyl"]),
-             "mirror": rng.random() < 0.25}
+             "mirror": rng.random() < 0.25, "edit": rng.random() < 0.2}
         if q == "obb_opts":
             c["ordered"] = rng.random() < 0.5
             c["angle_digits"] = rng.choice([1, 2, 0])
